@@ -18,6 +18,8 @@ from vcommon import Outcome, Findings, REPO, build_cli, run_cli, new_replay_dir,
 CORPUS = {
     "path-variable-and-query-parameter-of-the-same-name": "let item = { 'id! int, 'label str };\nres /items/{ 'id int }?{ 'id str, 'limit int } on get -> <status=200, item>;\n"
                                                           "let org = /orgs/{ 'org int };\nlet members = concat org (/members?{ 'org str });\nres members on get -> <status=200, [item]>;\n",
+    "path-variable-names-with-punctuation": "let rev = /items/{ 'item-id int }/revisions/{ 'rev_no int };\nres /items/{ 'item-id int } on get -> <{}>;\nres rev on get -> <{}>;\n"
+                                            "let joined = concat /plain/{ 'x$y str } (/sub/{ 'a-b-c int });\nres joined on get -> <{}>;\n",
     "refs-explicit": "let @thing = { 'id! int, 'next? @thing };\nlet @name = str;\nres /things on get -> <[@thing]>;\nres /names on get -> <@name>;\n",
     "refs-implicit-recursion": "let tree = rec x { 'children [x] };\nlet node = { 'left? node, 'v num };\nres /t on get -> <tree>;\nres /n on put : <node> -> <node>;\n",
     "refs-annotated": "# description: \"a described thing\", title: \"Thing\"\nlet @d = { 'a num };\n# description: \"a described name\"\nlet @n = str `title: \"N\"`;\nlet @arr = [@d];\nres /d on get -> <@d>;\nres /n on get -> <{ 'n @n, 'arr @arr }>;\n",
